@@ -223,9 +223,17 @@ class Pipeline(object):
 
         _logger.debug('Exited workers loop.')
 
+        worker_error = None
+
         if self._worker_tasks:
             _logger.debug('Waiting for workers to stop.')
             yield from asyncio.wait(self._worker_tasks)
+
+            for task in self._worker_tasks:
+                if not task.cancelled() and task.exception() and \
+                        not worker_error:
+                    # A task of an item in flight failed while stopping.
+                    worker_error = task.exception()
 
         _logger.debug('Waiting for producer to stop.')
 
@@ -247,6 +255,9 @@ class Pipeline(object):
                 self._warn_discarded_items()
 
         self._state = PipelineState.stopped
+
+        if worker_error:
+            raise worker_error
 
     def stop(self):
         if self._state == PipelineState.running:
